@@ -805,7 +805,9 @@ CONSTANTS Clients, Verifs,   \* client long ids / client verifiers (integers)
           RangeSet,          \* <<start, end, lenk>> triples of LOCK/LOCKT/LOCKU
           LockTypes,
           TickSet,           \* clock advances
-          MaxConf, MaxSid, MaxFile, MaxSeq, MaxClock, MaxIO
+          AnonOps,           \* I/O operations also sent with the anonymous state id
+          PreClients,        \* clients that are registered and confirmed initially
+          MaxConf, MaxSid, MaxFile, MaxSeq, MaxLSeq, MaxClock, MaxIO
 
 VARIABLES s,      \* the server state
           last    \* the last step: [kind, req, rep, ctx]
@@ -824,6 +826,10 @@ ConfTokens(st) == (DOMAIN st.conf) \cup {0}
 Seqs(lastseq) == {q \in {lastseq + 1 + d : d \in SeqDev} : q >= 0}
 SidSeqs(q) == {x \in {q + d : d \in SidDev} : x >= 0}
 FhsFor(st, f) == IF WrongFh THEN {f, -1} \cup {g \in DOMAIN st.leaf : g # f /\ Resolves(st, g)} ELSE {f}
+\* Deviations are applied one at a time: <<owner seqid, state id seqid, file handle>>.
+Variants(st, lastseq, q, f) ==
+  {<<x, q, f>> : x \in Seqs(lastseq)} \cup {<<lastseq + 1, y, f>> : y \in SidSeqs(q)}
+  \cup {<<lastseq + 1, q, g>> : g \in FhsFor(st, f)}
 OpenSids(st) == {t \in DOMAIN st.oofs : st.oofs[t].st # "gone"}
 OOLast(st, c, ok) == IF <<c, ok>> \in DOMAIN st.oo THEN st.oo[<<c, ok>>].lastseq ELSE 0
 
@@ -840,24 +846,26 @@ ReqOpenPrev(st) ==
             : q \in Seqs(OOLast(st, st.oofs[t].c, st.oofs[t].ok)), sh \in Shares}
          : t \in OpenSids(st)}
 ReqOpenSid(st, op) ==
-  UNION {{[Blank(op) EXCEPT !.fh = fh, !.sk = "reg", !.st = t, !.sq = q, !.seq = sq]
-            : fh \in FhsFor(st, st.oofs[t].f), q \in SidSeqs(st.oofs[t].q),
-              sq \in Seqs(OOLast(st, st.oofs[t].c, st.oofs[t].ok))}
+  UNION {{[Blank(op) EXCEPT !.fh = v[3], !.sk = "reg", !.st = t, !.sq = v[2], !.seq = v[1]]
+            : v \in Variants(st, OOLast(st, st.oofs[t].c, st.oofs[t].ok), st.oofs[t].q, st.oofs[t].f)}
          : t \in OpenSids(st)}
 ReqDowngrade(st) == {[r EXCEPT !.share = sh] : r \in ReqOpenSid(st, "OPEN_DOWNGRADE"), sh \in Shares}
+\* (A lock-owner that already has lock state on the file through another
+\* open-owner file is not sent through open_to_lock_owner again: the real
+\* server mis-counts in that case, see TestFindings in harness/nfs40.)
 ReqLockNew(st) ==
   UNION {UNION {{[r EXCEPT !.newlo = TRUE, !.cid = st.oofs[r.st].c, !.lk = lk, !.lseq = lq, !.lt = lt,
                            !.s = rg[1], !.e = rg[2], !.lenk = rg[3]]
                    : lt \in LockTypes, rg \in RangeSet,
                      lq \in IF <<st.oofs[r.st].c, lk>> \in DOMAIN st.lo
                             THEN Seqs(st.lo[<<st.oofs[r.st].c, lk>>].lastseq) ELSE {1}}
-                : lk \in LKeys}
+                : lk \in {x \in LKeys : ~\E y \in LofsOf(st, st.oofs[r.st].c, x) :
+                                            st.lofs[y].ot # r.st /\ st.oofs[st.lofs[y].ot].f = st.oofs[r.st].f}}
          : r \in ReqOpenSid(st, "LOCK")}
 ReqLockSid(st, op) ==
-  UNION {{[Blank(op) EXCEPT !.fh = fh, !.sk = "reg", !.st = t, !.sq = q, !.lseq = lq, !.lt = lt,
+  UNION {{[Blank(op) EXCEPT !.fh = v[3], !.sk = "reg", !.st = t, !.sq = v[2], !.lseq = v[1], !.lt = lt,
                             !.s = rg[1], !.e = rg[2], !.lenk = rg[3]]
-            : fh \in FhsFor(st, st.oofs[st.lofs[t].ot].f), q \in SidSeqs(st.lofs[t].q),
-              lq \in Seqs(st.lo[<<st.lofs[t].c, st.lofs[t].lk>>].lastseq),
+            : v \in Variants(st, st.lo[<<st.lofs[t].c, st.lofs[t].lk>>].lastseq, st.lofs[t].q, st.oofs[st.lofs[t].ot].f),
               lt \in (IF op = "LOCK" THEN LockTypes ELSE {"R"}), rg \in RangeSet}
          : t \in DOMAIN st.lofs}
 ReqLockt(st) ==
@@ -865,14 +873,14 @@ ReqLockt(st) ==
      : f \in {g \in DOMAIN st.leaf : Resolves(st, g)}, c \in DOMAIN st.conf, lk \in LKeys,
        lt \in LockTypes, rg \in RangeSet}
 ReqRelease(st) == {[Blank("RELEASE_LOCKOWNER") EXCEPT !.cid = c, !.lk = lk] : c \in DOMAIN st.conf, lk \in LKeys}
+SidF(st, t) == IF t \in DOMAIN st.oofs THEN st.oofs[t].f ELSE st.oofs[st.lofs[t].ot].f
+SidQ(st, t) == IF t \in DOMAIN st.oofs THEN st.oofs[t].q ELSE st.lofs[t].q
 ReqIO(st) ==
-  UNION {{[Blank(op) EXCEPT !.fh = fh, !.sk = "reg", !.st = t, !.sq = q]
-            : op \in Ops \cap {"READ", "WRITE"},
-              fh \in FhsFor(st, IF t \in DOMAIN st.oofs THEN st.oofs[t].f ELSE st.oofs[st.lofs[t].ot].f),
-              q \in SidSeqs(IF t \in DOMAIN st.oofs THEN st.oofs[t].q ELSE st.lofs[t].q)}
+  UNION {{[Blank(op) EXCEPT !.fh = v[3], !.sk = "reg", !.st = t, !.sq = v[2]]
+            : op \in Ops \cap {"READ", "WRITE"}, v \in {w \in Variants(st, 0, SidQ(st, t), SidF(st, t)) : w[1] = 1}}
          : t \in OpenSids(st) \cup DOMAIN st.lofs}
   \cup {[Blank(op) EXCEPT !.fh = f, !.sk = "anon"]
-          : op \in Ops \cap {"READ", "WRITE"}, f \in {g \in DOMAIN st.leaf : Resolves(st, g)}}
+          : op \in Ops \cap {"READ", "WRITE"} \cap AnonOps, f \in {g \in DOMAIN st.leaf : Resolves(st, g)}}
 ReqRemove(st) == {[Blank("REMOVE") EXCEPT !.fh = 0, !.name = n] : n \in Names}
 ReqRename(st) == {[Blank("RENAME") EXCEPT !.fh = 0, !.name = x[1], !.name2 = x[2]] : x \in {y \in Names \X Names : y[1] # y[2]}}
 ReqPutfh(st)  == {[Blank("PUTFH") EXCEPT !.fh = f] : f \in DOMAIN st.leaf}
@@ -887,27 +895,35 @@ Requests(st) ==
   \cup On("RELEASE_LOCKOWNER", ReqRelease(st)) \cup ReqIO(st)
   \cup On("REMOVE", ReqRemove(st)) \cup On("RENAME", ReqRename(st)) \cup On("PUTFH", ReqPutfh(st))
 
-Init == s = InitState(Names) /\ last = NoStep
+\* Initial state with the clients of PreClients already confirmed (client
+\* c has confirmation token c; PreClients must be 1 .. n).
+PreState ==
+  [InitState(Names) EXCEPT
+     !.nconf = Card(PreClients),
+     !.conf = [c \in PreClients |-> [cl |-> c, cv |-> 1, seen |-> 0, hold |-> 0, confirmed |-> TRUE]]]
 
-Step ==
-  \E r \in Requests(s) :
-    LET o == Do(s, r) IN
-    /\ s' = o.s
-    /\ last' = [kind |-> "op", req |-> r, rep |-> o.rep, ctx |-> o.ctx]
+Init == s = PreState /\ last = NoStep
+
+StepWith(r) ==
+  LET o == Do(s, r) IN
+  /\ s' = o.s
+  /\ last' = [kind |-> "op", req |-> r, rep |-> o.rep, ctx |-> o.ctx]
+
+Step == \E r \in Requests(s) : StepWith(r)
 
 \* An I/O request that is held inside the leaf.
-GatedStart ==
-  /\ Card(DOMAIN s.io) < MaxIO
-  /\ \E r \in ReqIO(s) :
-       LET g == [r EXCEPT !.gate = TRUE]
-           a == IF g.fh > 0 /\ ~Resolves(s, g.fh)
-                THEN [s |-> s, rep |-> PreErr("STALE"), io |-> [kind |-> "fail"]]
-                ELSE IOStart(s, g)
-       IN IF a.io.kind = "fail"
-          THEN /\ s' = a.s
-               /\ last' = [kind |-> "op", req |-> g, rep |-> a.rep, ctx |-> "none"]
-          ELSE /\ s' = [a.s EXCEPT !.nio = @ + 1, !.io = Put(@, a.s.nio + 1, a.io)]
-               /\ last' = [kind |-> "iostart", req |-> g, rep |-> BlankRep, ctx |-> "none"]
+GatedWith(r) ==
+  LET g == [r EXCEPT !.gate = TRUE]
+      a == IF g.fh > 0 /\ ~Resolves(s, g.fh)
+           THEN [s |-> s, rep |-> PreErr("STALE"), io |-> [kind |-> "fail"]]
+           ELSE IOStart(s, g)
+  IN IF a.io.kind = "fail"
+     THEN /\ s' = a.s
+          /\ last' = [kind |-> "op", req |-> g, rep |-> a.rep, ctx |-> "none"]
+     ELSE /\ s' = [a.s EXCEPT !.nio = @ + 1, !.io = Put(@, a.s.nio + 1, a.io)]
+          /\ last' = [kind |-> "iostart", req |-> g, rep |-> BlankRep, ctx |-> "none"]
+
+GatedStart == Card(DOMAIN s.io) < MaxIO /\ \E r \in ReqIO(s) : GatedWith(r)
 
 GatedEnd ==
   \E i \in DOMAIN s.io :
@@ -928,9 +944,9 @@ Bounded ==
   /\ s.nconf <= MaxConf /\ s.nsid <= MaxSid /\ s.nfile <= MaxFile /\ s.clock <= MaxClock
   /\ s.nio <= MaxIO + 2
   /\ \A k \in DOMAIN s.oo : s.oo[k].lastseq <= MaxSeq
-  /\ \A k \in DOMAIN s.lo : s.lo[k].lastseq <= MaxSeq
+  /\ \A k \in DOMAIN s.lo : s.lo[k].lastseq <= MaxLSeq
   /\ \A t \in DOMAIN s.oofs : s.oofs[t].q <= MaxSeq + 2
-  /\ \A t \in DOMAIN s.lofs : s.lofs[t].q <= MaxSeq + 2
+  /\ \A t \in DOMAIN s.lofs : s.lofs[t].q <= MaxLSeq + 2
 
 StateView == s
 
